@@ -87,6 +87,9 @@ def check_pca(run, A):
     fn = A.prog.func(qv)
     g = A.graphs.get(fn)
     rets = [strip_views(r) for r in ret_alts(g)]
+    # (a return of the eigenvector itself is the product with the scale 1)
+    plain = [r for r in rets if r.op == 'unpack' and r.args[1] == 0 and call_parts(strip_views(r.args[0]))[0] == B + 'get_pca']
+    rets = [r for r in rets if not any(r is p_ for p_ in plain)]
     ok = bool(rets) and all(r.op == 'binop' and r.args[0] == 'Mult' for r in rets)
     run.check(ok, 'SHAPE', 'get_pca_vector: returns eigenvector * scale', fn.loc(), '', 'return value is not a product of the principal eigenvector with a scale', construct=f'SHAPE::{qv}::product')
     if ok:
